@@ -197,3 +197,37 @@ pub fn rec_q_mul(a: Quantity, b: Quantity) -> Quantity {
 pub fn rec_div(k: usize) -> f32 { unsafe { REC_DIV[k] } }
 pub fn rec_mul(k: usize) -> f32 { unsafe { REC_MUL[k] } }
 pub fn rec_counts() -> (u8, u8) { unsafe { (REC_DIV_N, REC_MUL_N) } }
+
+/// `v` is (bit-identical to, or NaN like) one of the recorded products / quotients: "the value is a term the code
+/// computed", without fixing WHICH operator produced it last (so that a re-association such as (a+b)*dt/2 for
+/// (a+b)/2*dt, which is the same formula, does not fail the obligation).
+pub fn rec_any(v: f32) -> bool {
+    let (nd, nm) = rec_counts();
+    let mut k = 0;
+    while k < 4 {
+        if (k < nd as usize && fsame(v, rec_div(k))) || (k < nm as usize && fsame(v, rec_mul(k))) {
+            return true;
+        }
+        k += 1;
+    }
+    false
+}
+/// `v` is `base + r` (one real f32 addition) for one of the recorded products / quotients `r`.
+pub fn rec_any_plus(base: f32, v: f32) -> bool {
+    let (nd, nm) = rec_counts();
+    let mut k = 0;
+    while k < 4 {
+        if (k < nd as usize && (fsame(v, base + rec_div(k)) || fsame(v, rec_div(k) + base)))
+            || (k < nm as usize && (fsame(v, base + rec_mul(k)) || fsame(v, rec_mul(k) + base)))
+        {
+            return true;
+        }
+        k += 1;
+    }
+    false
+}
+/// at most four of each were recorded (the arrays hold four): nothing the code computed is missing from the record
+pub fn rec_complete() -> bool {
+    let (nd, nm) = rec_counts();
+    nd <= 4 && nm <= 4
+}
